@@ -82,3 +82,24 @@ def award(pots: list, n: int, n_boards: int, n_types: int, strength: Any) -> tup
 
 class NoRule(Exception):
     pass
+
+
+def contenders(pots: list, n: int, n_boards: int, n_types: int, strength: Any) -> list:
+    """players holding a best hand for some pot / board / hand type they are eligible for
+    (everybody else cannot win anything and is mucked or killed)."""
+    out = [False] * n
+    for amount, elig in pots:
+        for b in range(n_boards):
+            for t in range(n_types):
+                best = None
+                for i in elig:
+                    s = strength(i, b, t)
+                    if s is not None and (best is None or s > best):
+                        best = s
+                if best is None:
+                    continue
+                for i in elig:
+                    s = strength(i, b, t)
+                    if s is not None and s == best:
+                        out[i] = True
+    return out
